@@ -15,4 +15,6 @@ for id in "$@"; do
   for r in $(grep -o "replay=[^ ]*" "$D/check_$id.log" | cut -d= -f2 | head -2); do cp "$r" "$D/" 2>/dev/null; done
 done
 git -C /repo checkout -- .
+# the generated model files followed the seeded source: regenerate them from the restored tree
+for g in gen_ucode.py gen_consts.py gen_grammar.py gen_c01.py gen_muldiv.py; do python3 tools/$g > /dev/null; done
 git -C /repo status --short | head
